@@ -1,4 +1,5 @@
 """C12 — all function representations answer every protocol query alike and correctly."""
+import copy
 import itertools
 import json
 
@@ -332,7 +333,10 @@ def define_checks(ctx, rng, do_model=False):
             tm = TruthTableModel([list(r) for r in rows])
             t = tm.define(dict(defn))
             got1 = [list(r) for r in t.get_truth_table()]
-            tcols = [[rows[o][i] for o in range(m)] for i in range(N)]
+            # in a third of the cases the callable's don't-care marker is an equal copy of `DontCare` (a model that was
+            # deep-copied or unpickled), not the module-level object itself
+            src = copy.deepcopy(rows) if k % 3 == 0 else rows
+            tcols = [[src[o][i] for o in range(m)] for i in range(N)]
             pm = PyFunctionModel(lambda x: list(tcols[input_to_canonical_index(x)]), input_size=n, output_size=m)
             got2 = [list(r) for r in pm.define(dict(defn)).get_truth_table()]
         except Exception as e:  # noqa: BLE001
